@@ -541,3 +541,125 @@ func genSeqScenario(r *Rng, kind string) []c16In {
 	}
 	return out
 }
+
+// ---- width: matches with many capture groups (member names of two, three and four digits)
+
+var wideWidths = []int{0, 1, 9, 10, 11, 99, 100, 101, 110, 130, 450, 1000}
+
+// a line of `width` space-separated fields, group g = field g (every 7th group unmatched, every 5th
+// field a number, some fields empty), group 0 = the whole line
+func wideLine(r *Rng, width int) ([]byte, []int) {
+	var line []byte
+	spans := make([]int, 0, 2*width)
+	for g := 1; g <= width; g++ {
+		if len(line) > 0 {
+			line = append(line, ' ')
+		}
+		var t string
+		switch {
+		case g%5 == 0:
+			t = strconv.Itoa(g * 3)
+		case g%11 == 0:
+			t = ""
+		case g%13 == 0:
+			t = genText(r)
+		default:
+			t = fmt.Sprintf("w%dx", g)
+		}
+		if g%7 == 0 && g != width {
+			spans = append(spans, -1, -1)
+		} else {
+			spans = append(spans, len(line), len(line)+len(t))
+		}
+		line = append(line, t...)
+	}
+	return line, append([]int{0, len(line)}, spans...)
+}
+
+func wideNames(width int, named bool) []c16Name {
+	ns := []c16Name{}
+	if !named || width == 0 {
+		return ns
+	}
+	add := func(n string, i int) {
+		if i >= 1 && i <= width {
+			ns = append(ns, c16Name{hex.EncodeToString([]byte(n)), i})
+		}
+	}
+	add("last", width)
+	if !cleanMode {
+		add("first", 1)
+		add("g100", 100)
+		add("mid", width/2)
+	}
+	return ns
+}
+
+func genWide(r *Rng, width int, named bool) c16In {
+	line, idx := wideLine(r, width)
+	return c16In{Names: wideNames(width, named), Line: hex.EncodeToString(line), Indices: idx, Via: "scripted"}
+}
+
+// a real matcher over a wide record: regexp with n groups / dissect with n tokens
+func genWideReal(r *Rng, via string, n int) (c16In, bool) {
+	var pat strings.Builder
+	var line []byte
+	if via == "regex" {
+		pat.WriteString(`^`)
+	}
+	for i := 1; i <= n; i++ {
+		if i > 1 {
+			pat.WriteString(" ")
+			line = append(line, ' ')
+		}
+		line = append(line, fmt.Sprintf("v%dz", i)...)
+		switch {
+		case via == "dissect":
+			pat.WriteString(fmt.Sprintf("%%{f%d}", i))
+		case i == n || i == 100:
+			pat.WriteString(fmt.Sprintf(`(?P<n%d>\S+)`, i))
+		default:
+			pat.WriteString(`(\S+)`)
+		}
+	}
+	if via == "regex" {
+		pat.WriteString(`$`)
+	}
+	in, ok := fromMatcher(via, pat.String(), line)
+	if ok && cleanMode && len(in.Names) > 1 {
+		return in, false
+	}
+	return in, ok
+}
+
+// one compiled {json <view> <index>} per boundary index, over lines of growing and shrinking width
+func wideSeqScenario(r *Rng) []c16In {
+	sc := &c16Scenario{Kind: "sequence", Extract: 1, Workers: 1, Batch: 2}
+	for _, q := range []int{0, 9, 10, 11, 99, 100, 101, 110, 129, 449, 450} {
+		v := "{#}"
+		if q%2 == 1 {
+			v = "{.#}"
+		}
+		sc.Queries = append(sc.Queries, fmt.Sprintf("{json %s %d}", v, q))
+	}
+	sc.Queries = append(sc.Queries, "{json {.} g100}")
+	for _, w := range []int{0, 9, 100, 10, 450, 99, 101, 130, 11} {
+		line, idx := wideLine(r, w)
+		if w == 0 {
+			line, idx = []byte("-"), []int{0, 1}
+		}
+		sc.Lines = append(sc.Lines, c16SeqLine{hex.EncodeToString(line), idx})
+	}
+	for i := range sc.Lines {
+		sc.Seq = append(sc.Seq, i)
+	}
+	for i := len(sc.Lines) - 1; i >= 0; i-- {
+		sc.Seq = append(sc.Seq, i, i)
+	}
+	names := []c16Name{{hex.EncodeToString([]byte("g100")), 100}}
+	var out []c16In
+	for _, l := range sc.Lines {
+		out = append(out, c16In{Names: append([]c16Name(nil), names...), Line: l.Line, Indices: l.Indices, Via: "sequence", Scenario: sc})
+	}
+	return out
+}
